@@ -1148,7 +1148,14 @@ fn bigint_to_serde_value(bigint: &BigInt) -> Result<serde_json::Value, JsError> 
     bigint
         .as_int()
         .as_ref()
-        .map(|int| if int.0 >= 0 { serde_json::Value::from(int.0 as u64) } else {serde_json:: Value::from(int.0 as i64) })
+        .and_then(|int| {
+            // a JSON number holds a u64 or an i64 here: anything else is reported, not truncated
+            if int.0 >= 0 {
+                <u64 as std::convert::TryFrom<i128>>::try_from(int.0).ok().map(serde_json::Value::from)
+            } else {
+                <i64 as std::convert::TryFrom<i128>>::try_from(int.0).ok().map(serde_json::Value::from)
+            }
+        })
         .ok_or_else(|| JsError::from_str(&format!("Integer {} too big for our JSON support", bigint.to_str())))
 }
 
